@@ -633,3 +633,22 @@ Fixpoint results_accept (prefix : list N) (idem : bool) (conns : list (list tev)
 (* the conjunction the driver evaluates before every `ok`: the results of requests 1, 2, ... *)
 Definition accept_obs (prefix : list N) (idem : bool) (conns : list (list tev)) (rs : list cres) : bool :=
   results_accept prefix idem conns 1 rs.
+
+(* ---------------------------------------------------------------- the pool, as seen at the mock *)
+(* Pool-level events of one node in the mock's order: a pool connection finished its handshake, a request
+   frame arrived on a connection, a connection broke (cut by the mock, stalled, or closed by the client). *)
+Inductive pev := EvAdd (c : N) | EvGet (c : N) | EvBreak (c : N).
+
+(* the schedule of the pool machine such a trace stands for: the refiller opens a replacement only after it
+   has processed the error events (remove_connection -> need_filling -> start_filling), so every connection
+   that broke before a new one appears has been processed by then *)
+Fixpoint pool_labels (unprocessed : list N) (es : list pev) : list plabel :=
+  match es with
+  | [] => []
+  | EvAdd c :: r => map PProcess unprocessed ++ PAdd c :: pool_labels [] r
+  | EvGet c :: r => PGet c :: pool_labels unprocessed r
+  | EvBreak c :: r => PBreak c :: pool_labels (unprocessed ++ [c]) r
+  end.
+
+Definition pool_accept (es : list pev) : bool :=
+  match prun pool_init (pool_labels [] es) with Some _ => true | None => false end.
